@@ -9,6 +9,10 @@ use crate::inflate::core::{decompress, inflate_flags, DecompressorOxide, TINFL_L
 use crate::inflate::TINFLStatus;
 use crate::{DataFormat, MZError, MZFlush, MZResult, MZStatus, StreamResult};
 
+#[cfg(feature = "verif-hooks")]
+#[path = "stream_verif.rs"]
+pub mod verif;
+
 /// Tag that determines reset policy of [InflateState](struct.InflateState.html)
 pub trait ResetPolicy {
     /// Performs reset
